@@ -1,4 +1,4 @@
-import Pcore.Proofs.TlsExec
+import Pcore.Proofs.TlsDefs
 /-!
 # C14 — Contexts are confined to their goroutine and dynamic scope
 
@@ -30,8 +30,13 @@ Full statement / proved / missing
   completion in between), every context object that existed before, other than the running body's own and those of
   goroutines that ran, is unchanged: so a child's `Set/StackPush/DoWithLoader` never reach its parent or a sibling, and a
   waiting child still has the view of the `Fork` call whenever it starts.                                   **proved**
-  `C14_fork_isolated_defs` — the same for loader entries (definitions): only the running body's own loader, loaders of
-  goroutines that ran, and fresh loaders are written.                                          see `Props/C14.lean` end
+  `C14_fork_isolated_defs`, `C14_child_defs_invisible`, `C14_loads_unaffected` — the same for loader entries
+  (definitions): only the running body's own defining loader, the defining loaders of goroutines that were waiting, and
+  fresh loaders are written; a `Load` through a chain of untouched loaders answers as before.               **proved**
+  `C14_fork_isolated` = `C14_fork_isolated_full` (context objects ∧ loader entries).                        **proved**
+  Not proved as an invariant (only used as a hypothesis of `C14_loads_unaffected`, exercised by correspondence): that no
+  loader on a suspended parent's chain is the defining loader of a waiting goroutine — true because `Fork` allocates that
+  loader fresh (`C14_fork_view`).
 * `C14_released`, `C14_released_goroutine` — after the op (Do on a fresh goroutine, every forked goroutine joined) no
   goroutine-local table is left; a forked goroutine's table is gone when it ends.                           **proved**
 * witnesses on `Ver.before` (the original code): context left set and table never released after `Do`; a nested `Do`
@@ -191,6 +196,38 @@ example : ∀ s ∈ [[], [1], [0, 0, 0, 1], [0, 0, 0, 0, 1], [0, 0, 0, 0, 0, 0, 
       [(1, .get "a" (some 1)), (1, .load "A" true), (1, .load "B" true), (1, .done .normal)] ∧
     ((run .now s sampleFork).log.filter fun ge => ge.1 = 0) =
       [(0, .get "a" (some 2)), (0, .obs (some 1) 1 (some 1000) []), (0, .load "B" false), (0, .done .normal)] := by decide
+
+/-! ## fork isolation: loader entries -/
+
+/-- whoever runs and whatever runs in between: an entry table that existed before is unchanged unless it is the running
+    body's defining loader or the defining loader of a goroutine that was waiting -/
+theorem C14_fork_isolated_defs (f : Nat) (p : Prog) (g c : Nat) (w : World) (h : Pre g c w)
+    (l : Nat) (hl : l < w.nextLoader) (hne : some l ≠ (w.ctxs c).loader.head?)
+    (hp : ∀ t ∈ w.pending, some l ≠ (w.ctxs t.ctx).loader.head?) :
+    (exec .now f p g c w).2.defs l = w.defs l :=
+  (exec_full f p g c w h).1.d.dframe l hl hne hp
+
+/-- the full statement -/
+theorem C14_fork_isolated : C14_fork_isolated_full :=
+  fun f p g c w h =>
+    ⟨fun i hi hic hp => C14_fork_isolated_partial f p g c w h i hi hic hp,
+     fun l hl hne hp => C14_fork_isolated_defs f p g c w h l hl hne hp⟩
+
+/-- a whole goroutine (child) runs: entry tables other than the defining loaders of waiting goroutines (its own included)
+    are untouched — in particular every loader on the chain of its parent and of suspended goroutines -/
+theorem C14_child_defs_invisible (f : Nat) (w : World) (i : Nat) (t : Task) (hinv : Inv w) (ht : w.pending[i]? = some t)
+    (l : Nat) (hl : l < w.nextLoader) (hp : ∀ t' ∈ w.pending, some l ≠ (w.ctxs t'.ctx).loader.head?) :
+    (runTask .now (exec .now f) t { w with pending := w.pending.eraseIdx i }).defs l = w.defs l :=
+  (runTask_full (exec_full f) hinv ht).d.dframe l hl (by simp) hp
+
+/-- `px.Load` through a chain of loaders whose entry tables are the same answers the same -/
+theorem C14_loads_unaffected (d d' : LoaderId → List (String × Bool)) (chain : List LoaderId) (n : String)
+    (h : ∀ l ∈ chain, d' l = d l) : loadEntry d' chain n = loadEntry d chain n := by
+  induction chain with
+  | nil => rfl
+  | cons l r ih =>
+    simp only [loadEntry]
+    rw [ih (fun l' hl' => h l' (List.mem_cons_of_mem _ hl')), h l (List.mem_cons_self ..)]
 
 /-! ## released -/
 
